@@ -84,11 +84,21 @@ def inner(case):
             rec['args'] += ['ls:proofdir%d=%s/%s/.well-known/acme-challenge' % (k + 1, (id_env.get(x) or {}).get('HTTP_ROOT', http_root), x), 'stat:pidfile%d=%s/tacd_%s.pid' % (k + 1, pid_root, x),
                             'stat:sockfile%d=%s/tacd_%s.sock' % (k + 1, sock_root, x)]
         hooks = [group] + (['git'] if case['git'] else []) + ['rec']
+        extra_hooks = []
+        if case.get('killer'):
+            # the responder dies (and its pid file goes) between the validation and the clean hooks of the group
+            extra_hooks = [{'name': 'killer', 'type': ['challenge-tls-alpn-01-clean'], 'cmd': 'sh', 'args': ['-c', 'pkill -9 -F "$0"; rm -f "$0"; exit 0', pid_file]}]
+            hooks = ['killer'] + hooks
+        if case.get('git_late'):
+            # the files of an earlier run, made without the git group: an expired certificate and its key
+            os.makedirs(dd + '/certs', exist_ok=True)
+            C.vtool('mkcert', [{'id': 0, 'out_cert': dd + '/certs/c0_ecdsa-p256.crt.pem', 'out_key': dd + '/certs/c0_ecdsa-p256.pk.pem', 'key_type': 'ecdsa-p256',
+                                'not_before': '19700101000000Z', 'not_after': '20200101000000Z', 'sans': [['dns', x] for x in idents]}])
         c = {
             'include': [C.REPO + '/acmed/config/default_hooks.toml'],
             'global': {'accounts_directory': dd + '/acc', 'certificates_directory': dd + '/certs', 'renew_delay': '1d'},
             'endpoint': [{'name': 'ca1', 'url': ca.url('ca1'), 'tos_agreed': True}],
-            'hook': [rec],
+            'hook': [rec] + extra_hooks,
             'account': [{'name': 'acc1', 'contacts': [{'mailto': 'a@example.org'}], 'hooks': (['git'] if case['git'] else []) + ['rec'],
                          'env': {'VERIF_CERT': 'acct-acc1'}}],
             'certificate': [{'account': 'acc1', 'endpoint': 'ca1', 'name': 'c0', 'key_type': 'ecdsa_p256', 'hooks': hooks,
@@ -281,6 +291,19 @@ def gen(tier, r):
                 if r.random() < 0.5:
                     env[var] = val
             add(g, env, r.random() < 0.5, r.randint(1, 3))
+    # the git group added to a store that was filled before (every write is an edit); a responder that is already gone, with its pid
+    # file, when the clean hooks run
+    base = len(cases)
+    add('http-01-echo', {'HTTP_ROOT': '$D/webroot'}, True, 2)
+    add('tls-alpn-01-tacd-unix', {'TACD_PID_ROOT': '$D/pids', 'TACD_SOCK_ROOT': '$D/socks'}, True, 2)
+    for c in cases[base:]:
+        c.update(git_late=True, more=None, id_env_tpl=None, identifier='late%s.example.org' % c['name'])
+    base = len(cases)
+    add('tls-alpn-01-tacd-unix', {'TACD_PID_ROOT': '$D/pids', 'TACD_SOCK_ROOT': '$D/socks'}, False, 3)
+    add('tls-alpn-01-tacd-unix', {}, False, 2)
+    add('tls-alpn-01-tacd-tcp', {'TACD_PORT': port(), 'TACD_PID_ROOT': '$D/pids'}, False, 3)
+    for c in cases[base:]:
+        c.update(killer=True, more=None, id_env_tpl=None, identifier='gone%s.example.org' % c['name'])
     return cases
 
 
@@ -315,7 +338,7 @@ def run(tier):
         if c['git']:
             chk.count('git_files_checked', res.get('git_files', 0))
         if res.get('validations'):
-            chk.distinct.add((c['group'], tuple(sorted(c['env_tpl'])), c['git'], c['issuances'], c['identifier'].count('.') + 1, len(c.get('more') or []), bool(c.get('id_env_tpl')), len(c['identifier']) > 64, c.get('umask'), c.get('idle_first'), c.get('tls'), c.get('stale')))
+            chk.distinct.add((c['group'], tuple(sorted(c['env_tpl'])), c['git'], c['issuances'], c['identifier'].count('.') + 1, len(c.get('more') or []), bool(c.get('id_env_tpl')), len(c['identifier']) > 64, c.get('umask'), c.get('idle_first'), c.get('tls'), c.get('stale'), c.get('git_late'), c.get('killer')))
         if not res['problems']:
             chk.sample({'group': c['group'], 'set': sorted(c['env_tpl']), 'git': c['git'], 'issuances': c['issuances'], 'identifier': c['identifier'],
                         'validations': [(v['type'], v['target'], v['ok']) for v in res['validations']][:3]})
@@ -328,7 +351,7 @@ def run(tier):
                           {k: v for k, v in res.items() if k not in ('replay_dir',)}, res.get('replay_dir'))
     chk.rule = ('each shipped group (http-01-echo, tls-alpn-01-tacd-tcp, tls-alpn-01-tacd-unix) alone and with git, every subset of its documented '
                 'environment variables set to scratch values / left to the documented default (/var/www, /run, identifier, 5001 inside a private mount and '
-                'network namespace), identifiers of 1-3 labels (some longer than 64 octets), certificates with 1-3 identifiers (one of them with an environment table of its own in some cases), 1-3 consecutive issuances validated for real by the mock CA (validation agents with library defaults or speaking TLS 1.2 at most; http-01 proofs met again after an attempt that broke off); distinct = cases with at least '
+                'network namespace), identifiers of 1-3 labels (some longer than 64 octets), certificates with 1-3 identifiers (one of them with an environment table of its own in some cases), 1-3 consecutive issuances validated for real by the mock CA (validation agents with library defaults or speaking TLS 1.2 at most; http-01 proofs met again after an attempt that broke off; the git group added to a store filled earlier; a responder already gone, with its pid file, when the clean hooks run); distinct = cases with at least '
                 'one validation performed')
     chk.assumptions = ['unshare -m -n works (root)', 'the documented web-server mapping is <HTTP_ROOT>/<identifier>/.well-known/acme-challenge/<token>',
                        'tacd found through PATH is the binary built from /repo (release profile)']
